@@ -1,10 +1,148 @@
-(* Exec/RunC01.v — dispatcher for the matrix functions of properties C01 and C02 (src/matrix.rs). *)
+(* Exec/RunC01.v — dispatcher for the matrix functions of properties C01 and C02 (src/matrix.rs).
+   The table is written once, parametric in the scalar type F and its operations O (section G); the correspondence
+   check runs it at Qc (tab_c01), the symbolic tie states lemmas about it over an arbitrary field. *)
 From Coq Require Import ZArith QArith Qcanon List Bool Ascii String.
 From CG Require Import Scalar Model.Vector Model.Point Model.Matrix Exec.ExecQ Exec.Args.
 Import ListNotations.
 Open Scope string_scope.
 Set Implicit Arguments.
 
+(* generic flattening of results *)
+Definition gv1 {F} (v : V1 F) : gval F := GQ (v1_list v).
+Definition gv2 {F} (v : V2 F) : gval F := GQ (v2_list v).
+Definition gv3 {F} (v : V3 F) : gval F := GQ (v3_list v).
+Definition gv4 {F} (v : V4 F) : gval F := GQ (v4_list v).
+Definition gp1 {F} (v : P1 F) : gval F := GQ (p1_list v).
+Definition gp2 {F} (v : P2 F) : gval F := GQ (p2_list v).
+Definition gp3 {F} (v : P3 F) : gval F := GQ (p3_list v).
+Definition gm2 {F} (m : M2 F) : gval F := GQ (m2_list m).
+Definition gm3 {F} (m : M3 F) : gval F := GQ (m3_list m).
+Definition gm4 {F} (m : M4 F) : gval F := GQ (m4_list m).
+Definition gs {F} (x : F) : gval F := GQ [x].
+Definition gb {F} (b : bool) : gval F := GBool b.
+(* functions that panic where the model returns None *)
+Definition gpn {F} (A : Type) (f : A -> gval F) (o : option A) : gval F := match o with Some a => f a | None => GPanic end.
+(* functions returning Option *)
+Definition gopt {F} (A : Type) (f : A -> gval F) (o : option A) : gval F := match o with Some a => f a | None => GNone end.
+(* option (option X): outer None = panic, inner None = Option::None *)
+Definition goo {F} (X : Type) (f : X -> gval F) (o : option (option X)) : gval F :=
+  match o with None => GPanic | Some None => GNone | Some (Some x) => f x end.
+
+Section G.
+  Variable F : Type.
+  Variable O : Ops F.
+  Variable toNat : F -> nat.       (* index arguments travel as scalars *)
+  Local Notation r2 := (@rd_v2 F).  Local Notation r3 := (@rd_v3 F).  Local Notation r4 := (@rd_v4 F).
+  Local Notation rp2 := (@rd_p2 F). Local Notation rp3 := (@rd_p3 F).
+  Local Notation rm2 := (@rd_m2 F). Local Notation rm3 := (@rd_m3 F). Local Notation rm4 := (@rd_m4 F).
+  Local Notation rs := (@rd_s F).
+  Definition gri : rd F nat := rd_map toNat (@rd_s F).
+  Local Notation ri := gri.
+
+  Definition gtab_c01 : list (string * (list F -> gval F)) := [
+    ("m2_new", grun1 rm2 gm2); ("m3_new", grun1 rm3 gm3); ("m4_new", grun1 rm4 gm4);
+    ("m2_from_cols", grun2 r2 r2 (fun a b => gm2 (m2_from_cols a b)));
+    ("m3_from_cols", grun3 r3 r3 r3 (fun a b c => gm3 (m3_from_cols a b c)));
+    ("m4_from_cols", grun4 r4 r4 r4 r4 (fun a b c d => gm4 (m4_from_cols a b c d)));
+    ("m2_col", grun2 rm2 ri (fun m c => gpn gv2 (m2_col m c)));
+    ("m3_col", grun2 rm3 ri (fun m c => gpn gv3 (m3_col m c)));
+    ("m4_col", grun2 rm4 ri (fun m c => gpn gv4 (m4_col m c)));
+    ("m2_e", grun3 rm2 ri ri (fun m c r => gpn gs (m2_e m c r)));
+    ("m3_e", grun3 rm3 ri ri (fun m c r => gpn gs (m3_e m c r)));
+    ("m4_e", grun3 rm4 ri ri (fun m c r => gpn gs (m4_e m c r)));
+    ("m2_row", grun2 rm2 ri (fun m r => gpn gv2 (m2_row m r)));
+    ("m3_row", grun2 rm3 ri (fun m r => gpn gv3 (m3_row m r)));
+    ("m4_row", grun2 rm4 ri (fun m r => gpn gv4 (m4_row m r)));
+    ("m2_transpose", grun1 rm2 (fun m => gm2 (m2_transpose m)));
+    ("m3_transpose", grun1 rm3 (fun m => gm3 (m3_transpose m)));
+    ("m4_transpose", grun1 rm4 (fun m => gm4 (m4_transpose m)));
+    ("m2_diagonal", grun1 rm2 (fun m => gv2 (m2_diagonal m)));
+    ("m3_diagonal", grun1 rm3 (fun m => gv3 (m3_diagonal m)));
+    ("m4_diagonal", grun1 rm4 (fun m => gv4 (m4_diagonal m)));
+    ("m2_trace", grun1 rm2 (fun m => gs (m2_trace O m)));
+    ("m3_trace", grun1 rm3 (fun m => gs (m3_trace O m)));
+    ("m4_trace", grun1 rm4 (fun m => gs (m4_trace O m)));
+    ("m2_from_value", grun1 rs (fun s => gm2 (m2_from_value O s)));
+    ("m3_from_value", grun1 rs (fun s => gm3 (m3_from_value O s)));
+    ("m4_from_value", grun1 rs (fun s => gm4 (m4_from_value O s)));
+    ("m2_from_diagonal", grun1 r2 (fun d => gm2 (m2_from_diagonal O d)));
+    ("m3_from_diagonal", grun1 r3 (fun d => gm3 (m3_from_diagonal O d)));
+    ("m4_from_diagonal", grun1 r4 (fun d => gm4 (m4_from_diagonal O d)));
+    ("m2_identity", grun0 (S:=F) (gm2 (m2_identity O)));
+    ("m3_identity", grun0 (S:=F) (gm3 (m3_identity O)));
+    ("m4_identity", grun0 (S:=F) (gm4 (m4_identity O)));
+    ("m2_zero", grun0 (S:=F) (gm2 (m2_zero O)));
+    ("m3_zero", grun0 (S:=F) (gm3 (m3_zero O)));
+    ("m4_zero", grun0 (S:=F) (gm4 (m4_zero O)));
+    ("m3_from_translation", grun1 r2 (fun v => gm3 (m3_from_translation O v)));
+    ("m4_from_translation", grun1 r3 (fun v => gm4 (m4_from_translation O v)));
+    ("m3_from_scale", grun1 rs (fun s => gm3 (m3_from_scale O s)));
+    ("m4_from_scale", grun1 rs (fun s => gm4 (m4_from_scale O s)));
+    ("m3_from_nonuniform_scale", grun2 rs rs (fun x y => gm3 (m3_from_nonuniform_scale O x y)));
+    ("m4_from_nonuniform_scale", grun3 rs rs rs (fun x y z => gm4 (m4_from_nonuniform_scale O x y z)));
+    ("m3_of_m2", grun1 rm2 (fun m => gm3 (m3_of_m2 O m)));
+    ("m4_of_m2", grun1 rm2 (fun m => gm4 (m4_of_m2 O m)));
+    ("m4_of_m3", grun1 rm3 (fun m => gm4 (m4_of_m3 O m)));
+    ("m2_mul_v", grun2 rm2 r2 (fun m v => gv2 (m2_mul_v O m v)));
+    ("m3_mul_v", grun2 rm3 r3 (fun m v => gv3 (m3_mul_v O m v)));
+    ("m4_mul_v", grun2 rm4 r4 (fun m v => gv4 (m4_mul_v O m v)));
+    ("m2_mul", grun2 rm2 rm2 (fun a b => gm2 (m2_mul O a b)));
+    ("m3_mul", grun2 rm3 rm3 (fun a b => gm3 (m3_mul O a b)));
+    ("m4_mul", grun2 rm4 rm4 (fun a b => gm4 (m4_mul O a b)));
+    ("m2_add", grun2 rm2 rm2 (fun a b => gm2 (m2_add O a b)));
+    ("m3_add", grun2 rm3 rm3 (fun a b => gm3 (m3_add O a b)));
+    ("m4_add", grun2 rm4 rm4 (fun a b => gm4 (m4_add O a b)));
+    ("m2_sub", grun2 rm2 rm2 (fun a b => gm2 (m2_sub O a b)));
+    ("m3_sub", grun2 rm3 rm3 (fun a b => gm3 (m3_sub O a b)));
+    ("m4_sub", grun2 rm4 rm4 (fun a b => gm4 (m4_sub O a b)));
+    ("m2_neg", grun1 rm2 (fun a => gm2 (m2_neg O a)));
+    ("m3_neg", grun1 rm3 (fun a => gm3 (m3_neg O a)));
+    ("m4_neg", grun1 rm4 (fun a => gm4 (m4_neg O a)));
+    ("m2_mul_s", grun2 rm2 rs (fun a s => gm2 (m2_mul_s O a s)));
+    ("m3_mul_s", grun2 rm3 rs (fun a s => gm3 (m3_mul_s O a s)));
+    ("m4_mul_s", grun2 rm4 rs (fun a s => gm4 (m4_mul_s O a s)));
+    ("m2_div_s", grun2 rm2 rs (fun a s => gm2 (m2_div_s O a s)));
+    ("m3_div_s", grun2 rm3 rs (fun a s => gm3 (m3_div_s O a s)));
+    ("m4_div_s", grun2 rm4 rs (fun a s => gm4 (m4_div_s O a s)));
+    ("m2_rem_s", grun2 rm2 rs (fun a s => gm2 (m2_rem_s O a s)));
+    ("m3_rem_s", grun2 rm3 rs (fun a s => gm3 (m3_rem_s O a s)));
+    ("m4_rem_s", grun2 rm4 rs (fun a s => gm4 (m4_rem_s O a s)));
+    ("m3_transform_vector2", grun2 rm3 r2 (fun m v => gv2 (m3_transform_vector2 O m v)));
+    ("m3_transform_point2", grun2 rm3 rp2 (fun m p => gp2 (m3_transform_point2 O m p)));
+    ("m3_transform_vector3", grun2 rm3 r3 (fun m v => gv3 (m3_transform_vector3 O m v)));
+    ("m3_transform_point3", grun2 rm3 rp3 (fun m p => gp3 (m3_transform_point3 O m p)));
+    ("m4_transform_vector", grun2 rm4 r3 (fun m v => gv3 (m4_transform_vector O m v)));
+    ("m4_transform_point", grun2 rm4 rp3 (fun m p => gp3 (m4_transform_point O m p)));
+    ("m3_concat", grun2 rm3 rm3 (fun a b => gm3 (m3_concat O a b)));
+    ("m4_concat", grun2 rm4 rm4 (fun a b => gm4 (m4_concat O a b)));
+    (* C02 *)
+    ("m2_determinant", grun1 rm2 (fun m => gs (m2_determinant O m)));
+    ("m3_determinant", grun1 rm3 (fun m => gs (m3_determinant O m)));
+    ("m4_determinant", grun1 rm4 (fun m => gs (m4_determinant O m)));
+    ("m2_invert", grun1 rm2 (fun m => gopt gm2 (m2_invert O m)));
+    ("m3_invert", grun1 rm3 (fun m => gopt gm3 (m3_invert O m)));
+    ("m4_invert", grun1 rm4 (fun m => gopt gm4 (m4_invert O m)));
+    ("m3_inverse_transform", grun1 rm3 (fun m => gopt gm3 (m3_inverse_transform O m)));
+    ("m4_inverse_transform", grun1 rm4 (fun m => gopt gm4 (m4_inverse_transform O m)));
+    ("m2_transpose_self", grun1 rm2 (fun m => gpn gm2 (m2_transpose_self m)));
+    ("m3_transpose_self", grun1 rm3 (fun m => gpn gm3 (m3_transpose_self m)));
+    ("m4_transpose_self", grun1 rm4 (fun m => gpn gm4 (m4_transpose_self m)));
+    ("m2_swap_rows", grun3 rm2 ri ri (fun m a b => gpn gm2 (m2_swap_rows m a b)));
+    ("m3_swap_rows", grun3 rm3 ri ri (fun m a b => gpn gm3 (m3_swap_rows m a b)));
+    ("m4_swap_rows", grun3 rm4 ri ri (fun m a b => gpn gm4 (m4_swap_rows m a b)));
+    ("m2_swap_columns", grun3 rm2 ri ri (fun m a b => gpn gm2 (m2_swap_columns m a b)));
+    ("m3_swap_columns", grun3 rm3 ri ri (fun m a b => gpn gm3 (m3_swap_columns m a b)));
+    ("m4_swap_columns", grun3 rm4 ri ri (fun m a b => gpn gm4 (m4_swap_columns m a b)));
+    ("m2_swap_elements", grun5 rm2 ri ri ri ri (fun m a b c d => gpn gm2 (m2_swap_elements m a b c d)));
+    ("m3_swap_elements", grun5 rm3 ri ri ri ri (fun m a b c d => gpn gm3 (m3_swap_elements m a b c d)));
+    ("m4_swap_elements", grun5 rm4 ri ri ri ri (fun m a b c d => gpn gm4 (m4_swap_elements m a b c d)));
+    ("m2_replace_col", grun3 rm2 ri r2 (fun m c v => gpn (fun p => GQ (m2_list (fst p) ++ v2_list (snd p))) (m2_replace_col m c v)));
+    ("m3_replace_col", grun3 rm3 ri r3 (fun m c v => gpn (fun p => GQ (m3_list (fst p) ++ v3_list (snd p))) (m3_replace_col m c v)));
+    ("m4_replace_col", grun3 rm4 ri r4 (fun m c v => gpn (fun p => GQ (m4_list (fst p) ++ v4_list (snd p))) (m4_replace_col m c v)))
+  ].
+End G.
+
+(* ---------- the instance the correspondence check evaluates ---------- *)
 Definition O := OpsQ.
 Definition ov2 (v : V2 Qc) := vq (v2_list v).
 Definition ov3 (v : V3 Qc) := vq (v3_list v).
@@ -15,118 +153,11 @@ Definition om2 (m : M2 Qc) := vq (m2_list m).
 Definition om3 (m : M3 Qc) := vq (m3_list m).
 Definition om4 (m : M4 Qc) := vq (m4_list m).
 Definition os (x : Qc) := vq [x].
-(* functions that panic on a bad index *)
 Definition pn (A : Type) (f : A -> val) (o : option A) : val := match o with Some a => f a | None => VPanic end.
-(* functions returning Option *)
 Definition opt (A : Type) (f : A -> val) (o : option A) : val := match o with Some a => f a | None => VNone end.
-
-Local Notation r2 := (@rd_v2 Qc).  Local Notation r3 := (@rd_v3 Qc).  Local Notation r4 := (@rd_v4 Qc).
-Local Notation rp2 := (@rd_p2 Qc). Local Notation rp3 := (@rd_p3 Qc).
-Local Notation rm2 := (@rd_m2 Qc). Local Notation rm3 := (@rd_m3 Qc). Local Notation rm4 := (@rd_m4 Qc).
-Local Notation rs := (@rd_s Qc).
 Definition ri : rd Qc nat := rd_map qc_nat (@rd_s Qc).
 
-Definition tab_c01 : list (string * (list Qc -> val)) := [
-  ("m2_new", run1 rm2 om2); ("m3_new", run1 rm3 om3); ("m4_new", run1 rm4 om4);
-  ("m2_from_cols", run2 r2 r2 (fun a b => om2 (m2_from_cols a b)));
-  ("m3_from_cols", run3 r3 r3 r3 (fun a b c => om3 (m3_from_cols a b c)));
-  ("m4_from_cols", run4 r4 r4 r4 r4 (fun a b c d => om4 (m4_from_cols a b c d)));
-  ("m2_col", run2 rm2 ri (fun m c => pn ov2 (m2_col m c)));
-  ("m3_col", run2 rm3 ri (fun m c => pn ov3 (m3_col m c)));
-  ("m4_col", run2 rm4 ri (fun m c => pn ov4 (m4_col m c)));
-  ("m2_e", run3 rm2 ri ri (fun m c r => pn os (m2_e m c r)));
-  ("m3_e", run3 rm3 ri ri (fun m c r => pn os (m3_e m c r)));
-  ("m4_e", run3 rm4 ri ri (fun m c r => pn os (m4_e m c r)));
-  ("m2_row", run2 rm2 ri (fun m r => pn ov2 (m2_row m r)));
-  ("m3_row", run2 rm3 ri (fun m r => pn ov3 (m3_row m r)));
-  ("m4_row", run2 rm4 ri (fun m r => pn ov4 (m4_row m r)));
-  ("m2_transpose", run1 rm2 (fun m => om2 (m2_transpose m)));
-  ("m3_transpose", run1 rm3 (fun m => om3 (m3_transpose m)));
-  ("m4_transpose", run1 rm4 (fun m => om4 (m4_transpose m)));
-  ("m2_diagonal", run1 rm2 (fun m => ov2 (m2_diagonal m)));
-  ("m3_diagonal", run1 rm3 (fun m => ov3 (m3_diagonal m)));
-  ("m4_diagonal", run1 rm4 (fun m => ov4 (m4_diagonal m)));
-  ("m2_trace", run1 rm2 (fun m => os (m2_trace O m)));
-  ("m3_trace", run1 rm3 (fun m => os (m3_trace O m)));
-  ("m4_trace", run1 rm4 (fun m => os (m4_trace O m)));
-  ("m2_from_value", run1 rs (fun s => om2 (m2_from_value O s)));
-  ("m3_from_value", run1 rs (fun s => om3 (m3_from_value O s)));
-  ("m4_from_value", run1 rs (fun s => om4 (m4_from_value O s)));
-  ("m2_from_diagonal", run1 r2 (fun d => om2 (m2_from_diagonal O d)));
-  ("m3_from_diagonal", run1 r3 (fun d => om3 (m3_from_diagonal O d)));
-  ("m4_from_diagonal", run1 r4 (fun d => om4 (m4_from_diagonal O d)));
-  ("m2_identity", run0 (S:=Qc) (om2 (m2_identity O)));
-  ("m3_identity", run0 (S:=Qc) (om3 (m3_identity O)));
-  ("m4_identity", run0 (S:=Qc) (om4 (m4_identity O)));
-  ("m2_zero", run0 (S:=Qc) (om2 (m2_zero O)));
-  ("m3_zero", run0 (S:=Qc) (om3 (m3_zero O)));
-  ("m4_zero", run0 (S:=Qc) (om4 (m4_zero O)));
-  ("m3_from_translation", run1 r2 (fun v => om3 (m3_from_translation O v)));
-  ("m4_from_translation", run1 r3 (fun v => om4 (m4_from_translation O v)));
-  ("m3_from_scale", run1 rs (fun s => om3 (m3_from_scale O s)));
-  ("m4_from_scale", run1 rs (fun s => om4 (m4_from_scale O s)));
-  ("m3_from_nonuniform_scale", run2 rs rs (fun x y => om3 (m3_from_nonuniform_scale O x y)));
-  ("m4_from_nonuniform_scale", run3 rs rs rs (fun x y z => om4 (m4_from_nonuniform_scale O x y z)));
-  ("m3_of_m2", run1 rm2 (fun m => om3 (m3_of_m2 O m)));
-  ("m4_of_m2", run1 rm2 (fun m => om4 (m4_of_m2 O m)));
-  ("m4_of_m3", run1 rm3 (fun m => om4 (m4_of_m3 O m)));
-  ("m2_mul_v", run2 rm2 r2 (fun m v => ov2 (m2_mul_v O m v)));
-  ("m3_mul_v", run2 rm3 r3 (fun m v => ov3 (m3_mul_v O m v)));
-  ("m4_mul_v", run2 rm4 r4 (fun m v => ov4 (m4_mul_v O m v)));
-  ("m2_mul", run2 rm2 rm2 (fun a b => om2 (m2_mul O a b)));
-  ("m3_mul", run2 rm3 rm3 (fun a b => om3 (m3_mul O a b)));
-  ("m4_mul", run2 rm4 rm4 (fun a b => om4 (m4_mul O a b)));
-  ("m2_add", run2 rm2 rm2 (fun a b => om2 (m2_add O a b)));
-  ("m3_add", run2 rm3 rm3 (fun a b => om3 (m3_add O a b)));
-  ("m4_add", run2 rm4 rm4 (fun a b => om4 (m4_add O a b)));
-  ("m2_sub", run2 rm2 rm2 (fun a b => om2 (m2_sub O a b)));
-  ("m3_sub", run2 rm3 rm3 (fun a b => om3 (m3_sub O a b)));
-  ("m4_sub", run2 rm4 rm4 (fun a b => om4 (m4_sub O a b)));
-  ("m2_neg", run1 rm2 (fun a => om2 (m2_neg O a)));
-  ("m3_neg", run1 rm3 (fun a => om3 (m3_neg O a)));
-  ("m4_neg", run1 rm4 (fun a => om4 (m4_neg O a)));
-  ("m2_mul_s", run2 rm2 rs (fun a s => om2 (m2_mul_s O a s)));
-  ("m3_mul_s", run2 rm3 rs (fun a s => om3 (m3_mul_s O a s)));
-  ("m4_mul_s", run2 rm4 rs (fun a s => om4 (m4_mul_s O a s)));
-  ("m2_div_s", run2 rm2 rs (fun a s => om2 (m2_div_s O a s)));
-  ("m3_div_s", run2 rm3 rs (fun a s => om3 (m3_div_s O a s)));
-  ("m4_div_s", run2 rm4 rs (fun a s => om4 (m4_div_s O a s)));
-  ("m2_rem_s", run2 rm2 rs (fun a s => om2 (m2_rem_s O a s)));
-  ("m3_rem_s", run2 rm3 rs (fun a s => om3 (m3_rem_s O a s)));
-  ("m4_rem_s", run2 rm4 rs (fun a s => om4 (m4_rem_s O a s)));
-  ("m3_transform_vector2", run2 rm3 r2 (fun m v => ov2 (m3_transform_vector2 O m v)));
-  ("m3_transform_point2", run2 rm3 rp2 (fun m p => op2 (m3_transform_point2 O m p)));
-  ("m3_transform_vector3", run2 rm3 r3 (fun m v => ov3 (m3_transform_vector3 O m v)));
-  ("m3_transform_point3", run2 rm3 rp3 (fun m p => op3 (m3_transform_point3 O m p)));
-  ("m4_transform_vector", run2 rm4 r3 (fun m v => ov3 (m4_transform_vector O m v)));
-  ("m4_transform_point", run2 rm4 rp3 (fun m p => op3 (m4_transform_point O m p)));
-  ("m3_concat", run2 rm3 rm3 (fun a b => om3 (m3_concat O a b)));
-  ("m4_concat", run2 rm4 rm4 (fun a b => om4 (m4_concat O a b)));
-  (* C02 *)
-  ("m2_determinant", run1 rm2 (fun m => os (m2_determinant O m)));
-  ("m3_determinant", run1 rm3 (fun m => os (m3_determinant O m)));
-  ("m4_determinant", run1 rm4 (fun m => os (m4_determinant O m)));
-  ("m2_invert", run1 rm2 (fun m => opt om2 (m2_invert O m)));
-  ("m3_invert", run1 rm3 (fun m => opt om3 (m3_invert O m)));
-  ("m4_invert", run1 rm4 (fun m => opt om4 (m4_invert O m)));
-  ("m3_inverse_transform", run1 rm3 (fun m => opt om3 (m3_inverse_transform O m)));
-  ("m4_inverse_transform", run1 rm4 (fun m => opt om4 (m4_inverse_transform O m)));
-  ("m2_transpose_self", run1 rm2 (fun m => pn om2 (m2_transpose_self m)));
-  ("m3_transpose_self", run1 rm3 (fun m => pn om3 (m3_transpose_self m)));
-  ("m4_transpose_self", run1 rm4 (fun m => pn om4 (m4_transpose_self m)));
-  ("m2_swap_rows", run3 rm2 ri ri (fun m a b => pn om2 (m2_swap_rows m a b)));
-  ("m3_swap_rows", run3 rm3 ri ri (fun m a b => pn om3 (m3_swap_rows m a b)));
-  ("m4_swap_rows", run3 rm4 ri ri (fun m a b => pn om4 (m4_swap_rows m a b)));
-  ("m2_swap_columns", run3 rm2 ri ri (fun m a b => pn om2 (m2_swap_columns m a b)));
-  ("m3_swap_columns", run3 rm3 ri ri (fun m a b => pn om3 (m3_swap_columns m a b)));
-  ("m4_swap_columns", run3 rm4 ri ri (fun m a b => pn om4 (m4_swap_columns m a b)));
-  ("m2_swap_elements", run5 rm2 ri ri ri ri (fun m a b c d => pn om2 (m2_swap_elements m a b c d)));
-  ("m3_swap_elements", run5 rm3 ri ri ri ri (fun m a b c d => pn om3 (m3_swap_elements m a b c d)));
-  ("m4_swap_elements", run5 rm4 ri ri ri ri (fun m a b c d => pn om4 (m4_swap_elements m a b c d)));
-  ("m2_replace_col", run3 rm2 ri r2 (fun m c v => pn (fun p => vq (m2_list (fst p) ++ v2_list (snd p))) (m2_replace_col m c v)));
-  ("m3_replace_col", run3 rm3 ri r3 (fun m c v => pn (fun p => vq (m3_list (fst p) ++ v3_list (snd p))) (m3_replace_col m c v)));
-  ("m4_replace_col", run3 rm4 ri r4 (fun m c v => pn (fun p => vq (m4_list (fst p) ++ v4_list (snd p))) (m4_replace_col m c v)))
-].
+Definition tab_c01 : list (string * (list Qc -> val)) := qtab (gtab_c01 OpsQ qc_nat).
 
 Definition run_c01 : runner := fun f _ args =>
   match dispatch tab_c01 f with Some h => h args | None => VBad end.
